@@ -185,10 +185,17 @@ def build_datagram(hx, kind, nopts, tag=""):
     return HSTRP(pkt_type=pt, sn=sn, options=opts, payload=payload).as_bytes()
 
 
+def fresh_handler_is_initial(hx, what):
+    """the state is per handler: a handler created after any history of OTHER handlers starts disconnected with an empty registry"""
+    f = RRSDatagramProtocol(port=30002)
+    hx.prove(AND(len(f.registry) == 0, not f.hstrp_connected), "%s: a handler created afterwards starts disconnected with an empty registry (handlers share no state)" % what)
+
+
 def h_step_structured(hx, kind, nopts):
     p = make_handler(hx)
     data = build_datagram(hx, kind, nopts)
     check_step(hx, p, data, p.hstrp_connected, dict(p.registry), p.sn, dict(kind=kind))
+    fresh_handler_is_initial(hx, "after one step of another handler")
 
 
 def h_step_raw(hx, n):
